@@ -18,6 +18,7 @@ Tie (every run):
 """
 import os, struct, zlib, time
 import vlib
+from props import c06switch
 
 TRUSTED = [
     "C08: compress/zlib (deflate/inflate) is not re-proved: C08_pipeline_roundtrip, C08_reader_decodes_writer and C08_pipeline_detects "
@@ -915,12 +916,13 @@ def run(ctx):
     for k in range(0, len(coq_parse), 400):
         name = "pm_%d" % k
         vparts.append("Definition %s : list (string * N * N * N * list gdesc) := [%s].\n" % (name, ";".join(c[0] for c in coq_parse[k:k + 400])))
-        vparts.append("Definition bad_%s := Eval vm_compute in mismatches parse_ok %s.\n" % (name, name))
+        # the variant of the version 2 filter name switch that the source tree under test implements (tools/props/c06switch.py)
+        vparts.append("Definition bad_%s := Eval vm_compute in mismatches (parse_ok_gen %s) %s.\n" % (name, c06switch.cb(c06switch.pipeline()), name))
         labels.append(("bad_" + name, "parse", coq_parse[k:k + 400]))
     for k in range(0, len(coq_read), 400):
         name = "rd_%d" % k
         vparts.append("Definition %s : list (string * string * N * string) := [%s].\n" % (name, ";".join(c[0] for c in coq_read[k:k + 400])))
-        vparts.append("Definition bad_%s := Eval vm_compute in mismatches read_ok %s.\n" % (name, name))
+        vparts.append("Definition bad_%s := Eval vm_compute in mismatches (read_ok_gen %s) %s.\n" % (name, c06switch.cb(c06switch.pipeline()), name))
         labels.append(("bad_" + name, "read", coq_read[k:k + 400]))
     vparts.append("Definition ALLBAD := Eval vm_compute in [%s].\nPrint ALLBAD.\n" % ";".join("N.of_nat (List.length %s)" % l[0] for l in labels))
     for l in labels:
